@@ -422,7 +422,8 @@ class LoaderCheck:
                                  idx, after_multi_task_cancellation=multi)
                         break
                 if ctx.end_time < world["flags"]["loop_timeout"] and total < n and all(iv[1] is not None for iv in ivs):
-                    self.bad("closed_loop_too_few_invocations", f"{gname_rep}: run ended with {total} of {n} invocations, all finished/cancelled", idx)
+                    self.bad("closed_loop_too_few_invocations", f"{gname_rep}: run ended with {total} of {n} invocations, all finished/cancelled", idx,
+                             open_conditional=any(b.get("open") for b in world["meta"]["blocks"].get(g["name"], [])))
                 if total > conc:
                     self.nt.add(world["hash"] + gname_rep)
         return
